@@ -1463,7 +1463,7 @@ pub fn run(args: &Args) {
 	// container with a damaged tile index (every verdict = the verdict of a fresh reader)
 	for target in ["versatiles-blocks", "versatiles-damaged"] {
 		for (exec, threads) in [("threads", 4usize), ("threads", 12), ("tokio", 8), ("tokio", 24)] {
-			let cfg = StressCfg { target: target.into(), exec: exec.into(), threads, calls: args.n(240, 2400), mode: "rounds".into(), seed: rng.next() % 1_000_000 };
+			let cfg = StressCfg { target: target.into(), exec: exec.into(), threads, calls: args.n(150, 2400), mode: "rounds".into(), seed: rng.next() % 1_000_000 };
 			run_stress(&mut out, &env, &cfg);
 		}
 	}
